@@ -100,6 +100,86 @@ def sde_case(tid, coef, x0, mu4, dts4, dW4, dL4, coupled, mu4c=None, dW4c=None, 
     return {"tid": tid, "hdr": hdr, "ev": ev}
 
 
+def sde_case_2d(tid, coef, x0s, mu4, dts4, dW4, dL4, coupled, mu4c=None, dW4c=None, dL4c=None):
+    """two-dimensional copula driver: coef ("diag", 0) = DiagX(2); ("const", c, m) = Constant(m, 2, c).
+    mu4 / dW4 / dL4: per driver dimension (lists of 2)."""
+    from rpylib.distribution.sampling import SamplingMethod
+    from rpylib.grid.spatial import CTMCGrid
+    from rpylib.model.levydrivensde.levydrivensde import Constant, DiagX, LevyDrivenSDEModel
+    from rpylib.montecarlo.configuration import ConfigurationMultiLevel
+    from rpylib.montecarlo.path import StochasticJumpPath, create_path
+    from rpylib.process.coupling.couplingsde import CouplingSDE
+    from rpylib.process.markovchain.markovchainsde import MarkovChainSDE
+    n = len(dts4)
+    times = np.concatenate(([0.0], np.cumsum(dts4) / 4.0))
+
+    def dy(mu, dW, dL):
+        return [[mu[j] * dts4[i] + 4 * (dW[j][i] + dL[j][i]) for i in range(n)] for j in range(2)]
+    m = 2 if coef[0] == "diag" else coef[2]
+
+    def rows_of(dyj):
+        # effective increment of each component of X: its own driver (DiagX) or c * (sum of the drivers) (Constant)
+        if coef[0] == "diag":
+            return [dyj[0], dyj[1]]
+        return [[dyj[0][i] + dyj[1][i] for i in range(n)] for _ in range(m)]
+    eff = rows_of(dy(mu4, dW4, dL4))
+    hdr = {"kind": ("coupledsde2d:" if coupled else "sde2d:") + coef[0], "coef": coef[0], "c": coef[1], "x0": 0,
+           "x0s": list(x0s[:m]) * (2 if coupled else 1), "dy16": eff, "bdt16": [0] * n}
+    ev = []
+    try:
+        pts = list(range(-47, 48, 4))
+        atoms = [((a, b), 1) for a in pts for b in pts]
+        driver = atomic.atom_copula_model(atoms, 2)
+        for mm in driver.models:
+            mm.blumenthal_getoor_index = lambda: 1.0
+        a = DiagX(2) if coef[0] == "diag" else Constant(m=m, d=2, constant=float(coef[1]))
+        model = LevyDrivenSDEModel(driver=driver, x0=np.array([float(x) for x in x0s[:m]]), a=a)
+        step = 32
+        axis = np.array([j * step * U for j in range(-1, 2)])
+        grid = CTMCGrid(h=step * U, origin_coordinate=1, axes=[axis] * 2)
+        product = product_for_init()
+        cum = lambda rows: np.array([np.concatenate(([0.0], np.cumsum(r) / 4.0)) for r in rows])
+        col = lambda mu: np.array([[mu[0] / 4.0], [mu[1] / 4.0]])
+        if not coupled:
+            proc = MarkovChainSDE(model=model, method=SamplingMethod.BINARYSEARCHTREEADAPTED, grid=grid)
+            proc.initialisation(product)
+            proc.markov_chain.simulate_one_path = lambda: StochasticJumpPath(times, cum(dW4), cum(dL4))
+            proc.markov_chain.process_drift = lambda: col(mu4)
+            path = proc.simulate_one_path()
+            val = np.atleast_2d(path.value())
+            xs = [[float(x0s[k]) + v for v in val[k]] for k in range(m)]
+            eps_u, h_u = exact_int(proc.epsilon / U), exact_int(grid.h / U)
+        else:
+            effc = rows_of(dy(mu4c, dW4c, dL4c))
+            hdr["dy16"] = eff + effc
+            cs = CouplingSDE(model=model, grid=grid, method=SamplingMethod.BINARYSEARCHTREEADAPTED)
+            cs.initialisation(product)
+            pms = [create_path(ConfigurationMultiLevel(), cs.fine_process.deterministic_path)]
+            cs.pre_computation(mc_paths=1, product=product)
+            cs.next_level(1, pms, product)
+            diff = np.array([cum(dW4), cum(dW4c)])
+            jump = np.array([cum(dL4), cum(dL4c)])
+            cs.driver_coupling_process.simulate_one_path_with_coupling = lambda: StochasticJumpPath(times, diff, jump)
+            cs.mc_drift_h, cs.mc_drift_2h = col(mu4), col(mu4c)
+            path = cs.simulate_one_path_with_coupling()
+            val = np.asarray(path.value())          # (2, m, n + 1)
+            xs = [[float(x0s[k]) + v for v in val[c][k]] for c in range(2) for k in range(m)]
+            eps_u, h_u = exact_int(cs.epsilon / U), exact_int(cs.driver_coupling_process.grid.h / U)
+        rec = []
+        for comp in xs:
+            if coef[0] == "const":
+                rec.append([exact_int(x * 16) for x in comp])
+            else:
+                rec.append([exact_int(x * 16 ** i, tol=1e-9) for i, x in enumerate(comp)])
+        r = {"e": "Euler", "x": rec, "times4": [exact_int(t * 4) for t in np.asarray(path.times())], "eps_u": eps_u, "h_u": h_u}
+        r["bad"] = count_bad(r)
+        ev.append(r)
+    except Exception as ex:
+        import traceback
+        ev.append({"e": "Raise", "what": type(ex).__name__ + ": " + str(ex)[:100], "tb": traceback.format_exc()[-500:]})
+    return {"tid": tid, "hdr": hdr, "ev": ev}
+
+
 def df_cases():
     """df(t) of every model on a mesh reaching the last tenor (quantised 1e-9)"""
     from harness.models import copula_models, exp_models, levy_models
@@ -157,6 +237,16 @@ def main():
                     dL4c = [rng.choice(incs) for _ in range(n)]
                     traces.append(sde_case(f"s{len(traces)}", coef, rng.choice([1, 2]), mu4, dts4, dW4, dL4, True,
                                            mu4c=rng.choice([0, 1, 3]), dW4c=dW4c, dL4c=dL4c, beta=rng.choice([0, 1])))
+    # two-dimensional copula driver
+    for coef in (("diag", 0), ("const", 1, 2), ("const", 2, 1), ("const", 1, 1)):
+        for n in (1, 2, 3):
+            for rep in range(2 if quick else 8):
+                dts4 = [rng.choice([1, 2, 4]) for _ in range(n)]
+                two = lambda: [[rng.choice(incs) for _ in range(n)] for _ in range(2)]
+                mu = lambda: [rng.choice([0, 1, 2]), rng.choice([0, 1, 3])]
+                x0s = [rng.choice([1, 2, 3]), rng.choice([1, 2])]
+                traces.append(sde_case_2d(f"s{len(traces)}", coef, x0s, mu(), dts4, two(), two(), False))
+                traces.append(sde_case_2d(f"s{len(traces)}", coef, x0s, mu(), dts4, two(), two(), True, mu4c=mu(), dW4c=two(), dL4c=two()))
     for t in df_cases():
         t["tid"] = f"s{len(traces)}"
         traces.append(t)
